@@ -56,6 +56,9 @@ func (checker *TimestampChecker) IsUpToDate(t *ast.Task) (bool, error) {
 			}
 			f.Close()
 		}
+		// No run of the task has been recorded (or the last one failed):
+		// generated files that a failed attempt left behind prove nothing
+		return false, nil
 	}
 
 	// A missing generated file makes the task out of date, whatever the times say
